@@ -50,6 +50,12 @@ def check_step_tuple(out, where):
         raise Failure("C10:info-type", f"{where}: info is {type(info)}")
 
 
+def read_only(a):
+    """a member of the space whatever its flags"""
+    a.setflags(write=False)
+    return a
+
+
 def spellings(env, modes, i, k, vec_of):
     """the k-th accepted spelling of flat action i"""
     if modes["flat_actions"]:
@@ -59,7 +65,8 @@ def spellings(env, modes, i, k, vec_of):
         v = vec_of(i)
         forms = [lambda: list(v), lambda: tuple(v), lambda: np.array(v, dtype=np.int64),
                  lambda: np.array(v, dtype=np.int32), lambda: env.action_space.actions[i],
-                 lambda: np.array(v, dtype=np.uint8), lambda: np.array(v, dtype=np.uint32), lambda: np.array(v, dtype=np.int8)]
+                 lambda: np.array(v, dtype=np.uint8), lambda: np.array(v, dtype=np.uint32), lambda: np.array(v, dtype=np.int8),
+                 lambda: read_only(np.array(v, dtype=np.int64)), lambda: np.frombuffer(np.array(v, dtype=np.int64).tobytes(), dtype=np.int64)]
     f = forms[k % len(forms)]
     return f(), k % len(forms)
 
@@ -141,6 +148,12 @@ def run_case(case, rep, record=True):
                 walk.do_query(h, op[1])
                 if record:
                     rep.count("queries")
+                continue
+            if op[0] == "c":
+                walk.run_history(h, [tuple(op)], lambda *a: None)
+                env = h.env                      # the history goes on with the copy
+                if record:
+                    rep.count("continued-on-a-copy")
                 continue
             if op[0] in ("g", "o", "b"):
                 continue
